@@ -187,8 +187,8 @@ Definition qmin_list (l : list Q) : option Q :=
 Definition qmax_list (l : list Q) : option Q :=
   fold_right (fun x a => match a with None => Some x | Some y => Some (if qltb y x then x else y) end) None l.
 
-Definition executable (m : market) : bool :=
-  match m_sells m, m_buys m with
+Definition executable_b (buys sells : list O) : bool :=
+  match sells, buys with
   | [], _ => false
   | _, [] => false
   | s :: _, b :: _ =>
@@ -197,10 +197,10 @@ Definition executable (m : market) : bool :=
       | Some _, None => true
       | None, Some _ => true
       | None, None =>
-          let sm := market_volume (m_sells m) in
-          let bm := market_volume (m_buys m) in
-          let sl := levels (m_sells m) in
-          let bl := levels (m_buys m) in
+          let sm := market_volume sells in
+          let bm := market_volume buys in
+          let sl := levels sells in
+          let bl := levels buys in
           if negb (sm =? bm) then
             if sm <? bm then Z.of_nat (length sl) >=? bm - sm
             else Z.of_nat (length bl) >=? sm - bm
@@ -211,6 +211,7 @@ Definition executable (m : market) : bool :=
             end
       end
   end.
+Definition executable (m : market) : bool := executable_b (m_buys m) (m_sells m).
 
 (* ---------------- Market._execute_orders for one pending pair ---------------- *)
 Definition dec_vol (i v : Z) (l gone : list O) : result (list O * list O) :=
